@@ -54,8 +54,28 @@ class Result:
         self.reason = reason
 
 
-def check_valid(axioms, pc, goal, timeout_ms=10000, seed=0, external=True):
-    """Is  axioms /\\ pc ==> goal  valid?  Returns Result with status 'unsat' when proved."""
+def _budget_reason(reason):
+    r = (reason or '').lower()
+    return 'timeout' in r or 'canceled' in r or 'resource' in r or 'interrupted' in r
+
+
+def check_valid(axioms, pc, goal, timeout_ms=10000, seed=0, external=True, _retry=True):
+    """Is  axioms /\\ pc ==> goal  valid?  Returns Result with status 'unsat' when proved.
+
+    A query that fails only because the wall-clock budget ran out (z3 reports timeout / canceled) is re-tried once with four
+    times the budget, so that a loaded machine does not turn a passing obligation into a failing one."""
+    r = _check_valid(axioms, pc, goal, timeout_ms, seed, external)
+    if r.status != 'unsat' and _retry and external and _budget_reason(r.reason):
+        STATS['retries'] = STATS.get('retries', 0) + 1
+        r2 = _check_valid(axioms, pc, goal, timeout_ms * 4, seed, external)
+        r2.secs += r.secs
+        if r2.status != 'unsat':
+            r2.reason = (r2.reason or '') + ' (after retry with 4x budget)'
+        return r2
+    return r
+
+
+def _check_valid(axioms, pc, goal, timeout_ms=10000, seed=0, external=True):
     t0 = time.time()
     STATS['queries'] += 1
     attempts = []
